@@ -128,7 +128,96 @@ def arm (i : Input) : String :=
 def trivialCase (i : Input) (o : Output) : Bool :=
   i.kind == .set && i.vc == "unset" && o.res == "ok"
 
+/-! ### suite `src`: the Manager's remote source -/
+namespace Src
+
+/-- what `GET <base>/r/<rid>` answers, by the harness's naming convention -/
+def stdWeb (rid : String) : Remote String :=
+  if rid.startsWith "plain" then .resp 200 (.plain ((rid.drop 5).toString.toNat?.getD 0) true)
+  else if rid == "invalid" then .resp 200 (.plain 0 false)
+  else if rid == "garbage" || rid == "empty" then .resp 200 .garbage
+  else if rid == "sourced1" then .resp 200 (.sourced "plain1")
+  else if rid == "sourcedDown" then .resp 200 (.sourced "down")
+  else if rid == "self" then .resp 200 (.sourced "self")
+  else if rid == "s404" then .resp 404 (.plain 9 true)
+  else if rid == "s500" then .resp 500 (.plain 9 true)
+  else if rid.startsWith "redir" then .resp 200 (.plain ((rid.drop 5).toString.toNat?.getD 0) true)
+  else .down
+
+def parseOp (t : String) : Option (Op String) :=
+  if t == "D" then some .dflt
+  else if t == "G" || t == "N" then some (.load .garbage)
+  else if t == "I" then some (.load (.plain 0 false))
+  else if t.startsWith "Pf" then (t.drop 2).toString.toNat?.map (fun k => .load (.plain k true))
+  else if t.startsWith "P" then (t.drop 1).toString.toNat?.map (fun k => .load (.plain k true))
+  else if t.startsWith "Sf:" then some (.load (.sourced (t.drop 3).toString))
+  else if t.startsWith "S:" then some (.load (.sourced (t.drop 2).toString))
+  else if t.startsWith "H:" then some (.http (t.drop 2).toString)
+  else none
+
+def showCfg : Option Nat → String
+  | some c => toString c
+  | none => "invalid"
+
+def showSrc : Option String → String
+  | some u => u
+  | none => "-"
+
+/-- the observation the model predicts for a sequence of operations -/
+def predictObs (opsTok : List String) (ops : List (Op String)) : Obs :=
+  let r := run stdWeb fresh ops
+  let m := r.1
+  let sv := save m
+  let rl : Option (Mgr String × Bool) := sv.map (loadJSON stdWeb fresh)
+  { ops := opsTok, res := r.2.map (fun b => if b then "ok" else "err"),
+    src := showSrc m.source, eff := showCfg m.cfg,
+    saved := match sv with
+      | none => "err"
+      | some (.sourced u) => "source:" ++ u
+      | some (.plain c _) => "full:" ++ toString c
+      | some .garbage => "err",
+    rres := match rl with | none => "-" | some (_, ok) => if ok then "ok" else "err",
+    reff := match rl with | none => "-" | some (m2, _) => showCfg m2.cfg,
+    rsrc := match rl with | none => "-" | some (m2, _) => showSrc m2.source }
+
+def showObs (o : Obs) : String :=
+  "res=" ++ ",".intercalate o.res ++ " src=" ++ o.src ++ " eff=" ++ o.eff ++ " saved=" ++ o.saved ++
+    " rres=" ++ o.rres ++ " reff=" ++ o.reff ++ " rsrc=" ++ o.rsrc
+
+def parseObs (ws : List String) : Option Obs := do
+  let (pre, post) ← splitArrow ws
+  let ops ← kvOf pre "ops"
+  let res ← kvOf post "res"
+  let src ← kvOf post "src"
+  let eff ← kvOf post "eff"
+  let saved ← kvOf post "saved"
+  let rres ← kvOf post "rres"
+  let reff ← kvOf post "reff"
+  let rsrc ← kvOf post "rsrc"
+  let o : Obs := ⟨ops.splitOn ",", res.splitOn ",", src, eff, saved, rres, reff, rsrc⟩
+  if o.ops.length != o.res.length then none else pure o
+
 def answer (ws : List String) : String :=
+  match parseObs ws with
+  | none => "bad-case"
+  | some o =>
+    let lastKind := match o.ops.getLast? with
+      | some t => (t.takeWhile (fun c => c != ':' && !c.isDigit)).toString
+      | none => "-"
+    let arm := "src-" ++ toString o.ops.length ++ "-" ++ lastKind ++ "-" ++ o.res.getLast?.getD "-"
+    let failed := (clauses o).filter (fun c => !c.2)
+    if !failed.isEmpty then "propfail " ++ ",".intercalate (failed.map (·.1)) ++ " arm=" ++ arm
+    else match o.ops.mapM parseOp with
+      | none => "bad-case op"
+      | some ops =>
+        let p := predictObs o.ops ops
+        if showObs p != showObs o then "diff arm=" ++ arm ++ " model=" ++ (showObs p).replace " " ";"
+        else "ok arm=" ++ arm ++ (if o.res.all (· != "ok") then " trivial" else "")
+
+end Src
+
+def answer (ws : List String) : String :=
+  if ws.head? == some "src" then Src.answer (ws.drop 1) else
   match parseCase ws with
   | none => "bad-case"
   | some (i, o) =>
